@@ -298,6 +298,15 @@ func genAddr(t *rapid.T, v6 bool, label string) []byte {
 var boundaryPorts = []uint16{0, 1, 2, 21, 22, 52, 53, 54, 67, 68, 79, 80, 81, 123, 255, 256, 257, 442, 443, 444, 445, 446, 1023, 1024, 1025, 5353, 8079, 8080, 8081,
 	13568, 20480, 32766, 32767, 32768, 32769, 33023, 33024, 36895, 47873, 48385, 49151, 49152, 60999, 61000, 65279, 65280, 65534, 65535}
 
+// a few telling port pairs for the evidence samples
+func sampleWorthy(s, d uint16) bool {
+	switch [2]uint16{s, d} {
+	case [2]uint16{49152, 443}, [2]uint16{53, 32768}, [2]uint16{1024, 1023}, [2]uint16{60999, 61000}, [2]uint16{8080, 8080}, [2]uint16{80, 53}, [2]uint16{0, 22}:
+		return true
+	}
+	return false
+}
+
 func fams() []bool { return []bool{false, true} }
 
 func famName(v6 bool) string {
@@ -360,7 +369,7 @@ func TestC22PortsBoundary(t *testing.T) {
 								cls += "identical-ports"
 							}
 							evid.Case(fmt.Sprintf("b|%v|%d|%d|%d|%d|%d", v6, ai, proto, s, d, fi), decisive, cls, "boundary:A-"+dirName(r.a.dir))
-							if evid.WantSample(decisive) {
+							if ai == 0 && fi == 0 && sampleWorthy(s, d) && evid.WantSample(decisive) {
 								p, m := c.layers()
 								evid.Sample(map[string]any{"family": famName(v6), "proto": protoName(proto), "sport": s, "dport": d, "first_of_A": fmt.Sprintf("%x", p), "first_of_B": fmt.Sprintf("%x", m),
 									"A": dirName(r.a.dir), "B": dirName(r.b.dir), "stored": fmt.Sprintf("%x", r.a.stored), "decisive": decisive}, decisive)
